@@ -127,8 +127,15 @@ func vh_ws_masked() {
 	}
 	s := &http.VHSock{In: f}
 	c := newConn(http.VHConn(s))
+	// a second, unmasked frame follows on the same connection ("every text message, masked or
+	// not, ... in order"): state kept from the first frame must not leak into it
+	m2 := vnBytes("second", 3)
+	s.In = append(s.In, 0x81, 3)
+	s.In = append(s.In, m2...)
 	got, err := c.ReadData()
 	vassert(err == nil && vhSame(got, msg), "a masked frame is received with exactly the bytes that were sent, for every masking key")
+	got2, err2 := c.ReadData()
+	vassert(err2 == nil && vhSame(got2, m2), "an unmasked frame after a masked one is received unchanged")
 	vreach("masked")
 }
 
